@@ -28,6 +28,8 @@ TArgPair  == IsEvent("argpair") /\ ArgPairCore(Ev.a, Ev.b)
 TRule     == IsEvent("rule") /\ RuleRunCore(Ev.q, Ev.r, Ev.tag)
 TReturn   == IsEvent("req_end") /\ ReturnCore(Ev.q, Ev.err, Ev.vals, Ev.cv)
 TPush     == IsEvent("push") /\ (CheckLocks => Ev.locked = 1) /\ PushCore(Ev.i, Ev.len)
+TClear    == IsEvent("clear") /\ ClearCore(Ev.q, Ev.i)
+TPut      == IsEvent("put") /\ PutCore(Ev.q, Ev.i)
 TQuiesce  == IsEvent("quiesce") /\ QuiesceCore
 TFrozen   == IsEvent("frozen") /\ FrozenCore(Ev.q, Ev.same)
 TUpdBegin == IsEvent("upd_begin") /\ UpdCallCore(Ev.u, Ev.kind, Ev.rules, Ev.names)
@@ -37,7 +39,7 @@ TUpdEnd   == IsEvent("upd_end") /\ ~Ev.panic /\ UpdEndCoreU(Ev.u, Ev.ok)
 TSetModel == IsEvent("setmodel") /\ SetModelCore(Ev.m, Ev.ok)
 TQuery    == IsEvent("query") /\ QueryCore(Ev.kind, Ev.arg, Ev.res, Ev.err)
 
-TraceProper == TSession \/ TNew \/ TNewTry \/ TArrive \/ TPop \/ TSpin \/ TPeek \/ TArgPair \/ TRule \/ TReturn \/ TPush
+TraceProper == TSession \/ TNew \/ TNewTry \/ TArrive \/ TPop \/ TSpin \/ TPeek \/ TArgPair \/ TRule \/ TReturn \/ TPush \/ TClear \/ TPut
                \/ TQuiesce \/ TFrozen \/ TUpdBegin \/ TPublish \/ TIncrMid \/ TUpdEnd \/ TSetModel \/ TQuery
 
 NextSession(i) ==
